@@ -741,6 +741,21 @@ func (cc *ClusterContext) processAllocations(request *si.AllocationRequest) {
 		}
 
 		alloc := objects.NewAllocationFromSI(siAlloc)
+		// the conversion refuses an allocation that is malformed (placeholder without a task group name):
+		// tell the RM instead of dropping the request silently
+		if alloc == nil {
+			msg := fmt.Sprintf("Invalid allocation %s for application %s: placeholder without a task group name", siAlloc.GetAllocationKey(), siAlloc.GetApplicationID())
+			log.Log(log.SchedContext).Error("Invalid allocation add requested by shim, allocation cannot be converted",
+				zap.String("partition", siAlloc.GetPartitionName()),
+				zap.String("applicationID", siAlloc.GetApplicationID()),
+				zap.String("allocationKey", siAlloc.GetAllocationKey()))
+			rejectedAllocs = append(rejectedAllocs, &si.RejectedAllocation{
+				AllocationKey: siAlloc.GetAllocationKey(),
+				ApplicationID: siAlloc.GetApplicationID(),
+				Reason:        msg,
+			})
+			continue
+		}
 
 		_, newAlloc, err := partition.UpdateAllocation(alloc)
 		if err != nil {
